@@ -36,6 +36,10 @@ ASSUMPTIONS = [
     "eager (disable_jit) execution of forward/update_detector_states equals the jitted driver (checked by conformance replays through custom_fdtd_forward)",
 ]
 
+# is_always_off=True together with a fixed step list: the field is documented as "whether switch is always off", and
+# fdtdx.utils.sparams silences sources by setting exactly this flag, so the strict reading (off wins) is demanded.
+# Set to False to accept either answer for that combination.
+STRICT_ALWAYS_OFF = True
 DT_DYADIC = 2.0**-50
 DT_GENERIC = 9.531017980432493e-17
 
@@ -202,6 +206,8 @@ def _run_a(case):
                 fail("a:on-list-malformed", dict(params=desc, T=T, got=got_on))
                 continue
             bad = [t for t in range(T) if got_on[t] != exp_on[t] and not amb[t]]
+            if bad and off and p["fixed_on_time_steps"] is not None and not STRICT_ALWAYS_OFF:
+                bad = []
             if bad:
                 t = bad[0]
                 if off:
